@@ -684,6 +684,61 @@ func finish(id string, cfg *CheckConfig, tier string, seed int64, results []*Job
 			}
 		}
 	}
+	// cross-solver validation: sampled discharged obligations (PC and negated assertion,
+	// unsat under z3 4.8) are re-decided one-shot by z3 5.1 and cvc5; a 'sat' from either is
+	// a disagreement (PROBLEM), unknown/timeouts are counted
+	xsN := 6
+	if tier == "thorough" {
+		xsN = 32
+	}
+	xsolve := map[string]int{"sampled": 0, "agree": 0, "unknown": 0, "disagree": 0}
+	if !noReplay && os.Getenv("SYMGO_SOLVER") == "" {
+		var keys []string
+		for k := range queries {
+			keys = append(keys, k)
+		}
+		sort.Strings(keys)
+		step := 1
+		if len(keys) > xsN {
+			step = len(keys) / xsN
+		}
+		var pick []string
+		for i := 0; i < len(keys) && len(pick) < xsN; i += step {
+			pick = append(pick, keys[i])
+		}
+		type xr struct {
+			key, solver string
+			r           SatResult
+		}
+		ch := make(chan xr, 2*len(pick))
+		sem := make(chan struct{}, 16)
+		var wg sync.WaitGroup
+		for _, k := range pick {
+			for _, sv := range []string{"z3-new", "cvc5"} {
+				wg.Add(1)
+				go func(k, sv string) {
+					defer wg.Done()
+					sem <- struct{}{}
+					defer func() { <-sem }()
+					ch <- xr{k, sv, RunOneShot(sv, queries[k], 20000)}
+				}(k, sv)
+			}
+		}
+		wg.Wait()
+		close(ch)
+		for r := range ch {
+			xsolve["sampled"]++
+			switch r.r {
+			case Unsat:
+				xsolve["agree"]++
+			case Sat:
+				xsolve["disagree"]++
+				problems = append(problems, fmt.Sprintf("SOLVER-DISAGREEMENT: %s says sat on the obligation %s that z3 discharged (.work/%s/queries/%s.smt2)", r.solver, r.key, id, sanitize(r.key)))
+			default:
+				xsolve["unknown"]++
+			}
+		}
+	}
 	// replay and classify violations
 	exit := 0
 	var lines []string
@@ -764,6 +819,7 @@ func finish(id string, cfg *CheckConfig, tier string, seed int64, results []*Job
 		"init_notes":          initNotes,
 		"replays_run":         replayed,
 		"native_cross_validated_paths": xOK,
+		"cross_solver":        xsolve,
 		"violations_detail":   viols,
 		"known_lines":         lines,
 		"known_finding_occurrences": knownCount,
